@@ -154,6 +154,28 @@ impl Layout {
             rowpush: it.get(9).map_or(false, |x| x.atom() == "true"),
         }
     }
+    /// row counts of the partitions a query sees (flushed runs of batches, then the open buffer);
+    /// with a small partition_combine_factor every flush merges all partitions into one
+    pub fn partitions(&self) -> Vec<usize> {
+        let mut parts = vec![];
+        let mut cur = 0usize;
+        for (len, fl) in self.batches.iter().zip(&self.flush) {
+            cur += len;
+            if *fl {
+                if self.factor < 10 && !parts.is_empty() {
+                    let merged: usize = parts.iter().sum::<usize>() + cur;
+                    parts = vec![merged];
+                } else {
+                    parts.push(cur);
+                }
+                cur = 0;
+            }
+        }
+        if cur > 0 {
+            parts.push(cur);
+        }
+        parts
+    }
     /// short label for the class histogram
     pub fn shape(&self) -> String {
         let flushed = self.flush.iter().filter(|b| **b).count();
@@ -479,7 +501,30 @@ impl Db {
         let sql = sql.to_string();
         let res = std::panic::catch_unwind(std::panic::AssertUnwindSafe(|| {
             runtime().block_on(async {
-                tokio::time::timeout(Duration::from_secs(20), db.run_query(&sql, false, true, vec![])).await
+                // poll in short slices: a panic in a pool thread never completes the query, so stop
+                // waiting shortly after one has been recorded instead of sitting out the deadline
+                let fut = db.run_query(&sql, false, true, vec![]);
+                tokio::pin!(fut);
+                let started = std::time::Instant::now();
+                let mut panic_seen: Option<std::time::Instant> = None;
+                loop {
+                    match tokio::time::timeout(Duration::from_millis(25), &mut fut).await {
+                        Ok(r) => return Ok(r),
+                        Err(elapsed) => {
+                            if panic_seen.is_none() && !PANICS.lock().unwrap().is_empty() {
+                                panic_seen = Some(std::time::Instant::now());
+                            }
+                            if let Some(t) = panic_seen {
+                                if t.elapsed() > Duration::from_millis(300) {
+                                    return Err(elapsed);
+                                }
+                            }
+                            if started.elapsed() > Duration::from_secs(20) {
+                                return Err(elapsed);
+                            }
+                        }
+                    }
+                }
             })
         }));
         let out = match res {
